@@ -33,6 +33,11 @@ func VerifC06Accum() { verifC06PushClose("C06.accum") }
 // constants these are < 100, 100..999 and 1000 pending entries.
 func VerifC06Partial() { verifC06PushClose("C06.partial") }
 
+// C06.parked — the same harness with three addresses and batch size 2: three full batches of
+// different addresses can be in flight, so the flusher's parked-buffer limit is reached without
+// a repeated address.
+func VerifC06Parked() { verifC06PushClose("C06.parked") }
+
 func verifC06PushClose(tag string) {
 	verifC06ColdLimit = verifParam("cold", 100)
 	itemsPerBatch = verifParam("batch", 2)
@@ -69,7 +74,7 @@ func verifC06PushClose(tag string) {
 	verifKnownFinding("C06-S6-flusher-parked-batch-lost", anyFull)
 
 	dir := verifTempPath("gsfa-flusher")
-	w := c06NewWriter(dir, verifParam("chancap", 2), true)
+	w := c06NewWriter(dir, verifParam("chancap", 2), verifParam("eager", 0) == 1)
 	keys := make([]solana.PublicKey, nAddr)
 	for k := range keys {
 		keys[k] = c06Key(k)
@@ -83,7 +88,9 @@ func verifC06PushClose(tag string) {
 		if i == flushAt {
 			slot = uint64(500 * (i + 2))
 		}
-		hasMeta, isSuccess, isVote := i&1 == 0, i&2 == 0, i&4 != 0
+		// one flag per push in turn, then all three: every flag is both set and clear within two
+		// pushes and no two flags are correlated
+		hasMeta, isSuccess, isVote := i%4 == 0 || i%4 == 3, i%4 == 1 || i%4 == 3, i%4 == 2 || i%4 == 3
 		var pks solana.PublicKeySlice
 		for k := 0; k < nAddr; k++ { // keys[0] > keys[1] > ...: handed over in descending order
 			if sets[i]&(1<<uint(k)) != 0 {
